@@ -71,9 +71,13 @@ def judge(case, impl, model, spec=None):
     if "LEAK" in impl:
         return ("leak", impl[-30:])
     if spec is not None and impl != spec:
+        import re
+        name = "?"
         for p, s in zip(impl.split(" "), spec.split(" ")):
+            m = re.match(r"^([a-z_]+)=", p)
+            if m:
+                name = m.group(1)      # fields contain spaces: the record name is the last token of the form name=
             if p != s:
-                name = p.split("=")[0]
                 kind = "refusal" if (p.endswith("=err")) != (s.endswith("=err")) else "fields"
                 return ("security:%s:%s" % (name, kind), "parser reports '%s', the frame says '%s'" % (p[:300], s[:300]))
         return ("security:shape", impl[:100])
